@@ -393,7 +393,7 @@ func (w *world) run(c hcase) {
 		}
 		violation(sig(class), detail(msg, paths))
 	}
-	fmt.Printf("trace %d %s %s %s status=%d created=%v removed=%v changed=%v\n", w.seq, c.Route, c.Vector, c.Pattern, status, trunc(created), trunc(removed), trunc(changed))
+	fmt.Printf("trace %d %s %s %s status=%d created=%q removed=%q changed=%q\n", w.seq, c.Route, c.Vector, c.Pattern, status, trunc(created), trunc(removed), trunc(changed))
 	if len(created)+len(removed)+len(changed) > 0 {
 		r.Count("requests_with_namespace_effect", 1)
 		if len(report) == 0 {
